@@ -23,6 +23,8 @@ import (
 	"fmt"
 	"reflect"
 	"sync"
+
+	"github.com/cloudwego/eino/internal/verifhook"
 )
 
 type chanCall struct {
@@ -587,6 +589,8 @@ func (r *runner) createTasks(ctx context.Context, nodeMap map[string]any, optMap
 			option:  optMap[nodeKey],
 		})
 	}
+	verifhook.Order(len(nextTasks), func(i, j int) bool { return nextTasks[i].nodeKey < nextTasks[j].nodeKey },
+		func(i, j int) { nextTasks[i], nextTasks[j] = nextTasks[j], nextTasks[i] })
 	return nextTasks, nil
 }
 
@@ -625,6 +629,8 @@ func (r *runner) restoreTasks(ctx context.Context, inputs map[string]any, skipPr
 
 		ret = append(ret, newTask)
 	}
+	verifhook.Order(len(ret), func(i, j int) bool { return ret[i].nodeKey < ret[j].nodeKey },
+		func(i, j int) { ret[i], ret[j] = ret[j], ret[i] })
 	return ret, nil
 }
 
@@ -725,6 +731,8 @@ func (r *runner) calculateBranch(ctx context.Context, curNodeKey string, startCh
 	for skipped := range skippedNodes {
 		skippedNodeList = append(skippedNodeList, skipped)
 	}
+	verifhook.Order(len(skippedNodeList), func(i, j int) bool { return skippedNodeList[i] < skippedNodeList[j] },
+		func(i, j int) { skippedNodeList[i], skippedNodeList[j] = skippedNodeList[j], skippedNodeList[i] })
 
 	err := cm.reportBranch(curNodeKey, skippedNodeList)
 	if err != nil {
